@@ -239,7 +239,7 @@ def plan(tier, seed):
     return [{"shard": i, "n": {"quick": 45, "thorough": 900}[tier]} for i in range(n)]
 
 
-POOLS = ["plain", "prefix", "substring", "concat", "case", "underscore"]
+POOLS = ["plain", "prefix", "substring", "concat", "case", "underscore", "dotted"]
 
 
 def run_case(jc, rec):
